@@ -1541,6 +1541,12 @@ class BootstrapElectionModel(BaseElectionModel):
             # since aggregate is of length zero we can grab the first element
             dummies = pd.get_dummies(all_units[aggregate[0]])
             aggregate_temp_column_name = aggregate
+        if "county_classification" in aggregate:
+            # the margin (summed in BaseElectionModel) leaves unexpected and non-modeled units out of county
+            # classification groups: they belong to no such group, and a group made up of them only does not exist
+            dummies = dummies.astype(int)
+            dummies.iloc[(n_train + n_test) :] = 0  # noqa: E203
+            dummies = dummies.loc[:, dummies.values.sum(axis=0) > 0]
         aggregate_indicator = dummies.values
         contests = dummies.columns
 
@@ -1685,6 +1691,13 @@ class BootstrapElectionModel(BaseElectionModel):
             # since aggregate is of length one, we can grab the first element
             dummies = pd.get_dummies(all_units[aggregate[0]])
 
+
+        if "county_classification" in aggregate:
+            # the margin (summed in BaseElectionModel) leaves unexpected and non-modeled units out of county
+            # classification groups: they belong to no such group, and a group made up of them only does not exist
+            dummies = dummies.astype(int)
+            dummies.iloc[(n_train + n_test) :] = 0  # noqa: E203
+            dummies = dummies.loc[:, dummies.values.sum(axis=0) > 0]
         aggregate_indicator = dummies.values
         contests = dummies.columns
         aggregate_indicator_expected = aggregate_indicator[: (n_train + n_test)]
